@@ -358,7 +358,8 @@ func c14Portfolio_(spec c14Spec, res *core.CaseResult, verbose bool) {
 		res.Violate("C14/source-address-residue/"+residueClass(rs[0]), "%d records of the staking / distribution stores still carry the source address after migration: %s", len(rs), strings.Join(firstN(rs, 6), " "))
 	}
 	// by-validator queries return exactly the migrated records
-	for v, sh := range before.Shares {
+	for _, v := range sortedKeys(before.Shares) {
+		sh := before.Shares[v]
 		va, _ := sdk.ValAddressFromBech32(v)
 		dels, err := c.App.StakingKeeper.GetValidatorDelegations(c.Ctx, va)
 		found := false
@@ -400,7 +401,7 @@ func c14Portfolio_(spec c14Spec, res *core.CaseResult, verbose bool) {
 		}
 	}
 	do("blocks", func(w *c14World, _ sdk.AccAddress) error { return w.c.Skip(2) })
-	for v := range before.Shares {
+	for _, v := range sortedKeys(before.Shares) { // fixed order: the history must be a function of the seed
 		v := v
 		do("withdraw", func(w *c14World, who sdk.AccAddress) error {
 			r := w.c.Msg(distrtypes.NewMsgWithdrawDelegatorReward(who.String(), v))
@@ -638,4 +639,13 @@ func c14Refusals(spec c14Spec, res *core.CaseResult, verbose bool) {
 	try("target-already-used", c.Branch(), s2, w.tgt.Hex(), w.sig(s2, w.tgt))
 	// a migrated target address used as a source is refused as well (it has a record)
 	try("former-target-as-source", c.Branch(), w.tgt.Acc(), stranger.Hex(), w.sig(w.tgt.Acc(), stranger))
+}
+
+func sortedKeys(m map[string]string) []string {
+	ks := make([]string, 0, len(m))
+	for k := range m {
+		ks = append(ks, k)
+	}
+	sort.Strings(ks)
+	return ks
 }
